@@ -285,3 +285,42 @@ pub assume_specification<T, E>[Result::<T, E>::unwrap_or](res: Result<T, E>, def
     where E: core::marker::Destruct, T: core::marker::Destruct
     ensures r == (match res { Ok(t) => t, Err(_) => default });
 
+
+// ---- incoming cookies and the wire format (IncomingSession::extract) -------------------------------
+#[verifier::external_body] pub struct RequestCookies<'a> { _p: &'a u8 }
+#[verifier::external_body] pub struct RequestCookie<'a> { _p: &'a u8 }
+/// the value of the (first) request cookie with that name, if any
+pub uninterp spec fn req_cookie(c: &RequestCookies<'_>, name: Seq<char>) -> Option<Seq<char>>;
+pub uninterp spec fn req_cookie_value(c: &RequestCookie<'_>) -> Seq<char>;
+impl<'a> RequestCookies<'a> {
+    #[verifier::external_body]
+    pub fn get(&self, name: &String) -> (r: Option<RequestCookie<'a>>)
+        ensures match r { Some(c) => req_cookie(self, name@) == Some(req_cookie_value(&c)), None => req_cookie(self, name@) is None }
+    { unimplemented!() }
+}
+impl<'a> RequestCookie<'a> {
+    #[verifier::external_body]
+    pub fn value(&self) -> (r: &str) ensures r@ == req_cookie_value(self) { unimplemented!() }
+}
+/// what serde_json::from_str::<WireClientState> makes of a cookie value
+pub uninterp spec fn wire_parse(s: Seq<char>) -> Option<(SessionId, Map<Seq<char>, Value>)>;
+/// ASSUMED serde round trip for WireClientState: parsing what `to_string` wrote gives the same id and key/values
+pub broadcast axiom fn wire_round_trip(id: SessionId, kv: Map<Seq<char>, Value>)
+    ensures #[trigger] wire_parse(wire(id, kv)) == Some((id, kv));
+/// types `serde_json::from_str` is asked for in this unit
+pub trait FromWire: Sized { spec fn matches_wire(&self, p: (SessionId, Map<Seq<char>, Value>)) -> bool; }
+impl<'a> FromWire for WireClientState<'a> {
+    open spec fn matches_wire(&self, p: (SessionId, Map<Seq<char>, Value>)) -> bool { self.session_id == p.0 && cow_val(self.user_values)@ == p.1 }
+}
+pub mod serde_json_de {
+    use super::*;
+    #[verifier::external_body]
+    pub fn from_str<T: FromWire>(s: &str) -> (r: Result<T, SerdeJsonError>)
+        ensures match r { Ok(t) => wire_parse(s@) matches Some(p) && t.matches_wire(p), Err(_) => wire_parse(s@) is None }
+    { unimplemented!() }
+}
+impl<'a> Cow<'a, HashMap<CowStr, Value>> {
+    /// std: clones if borrowed
+    #[verifier::external_body]
+    pub fn into_owned(self) -> (r: HashMap<CowStr, Value>) ensures r@ == cow_val(self)@ { unimplemented!() }
+}
